@@ -56,10 +56,30 @@ func heapKeysOfStore(base string, t types.Type, out map[string]bool) {
 			boolKeys[base] = true
 			boolKeyMu.Unlock()
 		}
+		if isRefType(t) {
+			boolKeyMu.Lock()
+			refKeys[base] = true
+			boolKeyMu.Unlock()
+		}
 	}
 }
 
 var boolKeys = map[string]bool{}
+var refKeys = map[string]bool{}
+
+func isRefKey(k string) bool {
+	boolKeyMu.Lock()
+	defer boolKeyMu.Unlock()
+	return refKeys[k]
+}
+
+func noteMapType(mt *types.Map) {
+	if isRefType(mt.Elem()) {
+		boolKeyMu.Lock()
+		refKeys[mapKey(mt)+"#val"] = true
+		boolKeyMu.Unlock()
+	}
+}
 var boolKeyMu sync.Mutex
 
 func (vc *VC) addrKeys(v ssa.Value, out *modSet) {
@@ -545,6 +565,7 @@ func (vc *VC) enterLoop(fr *frame, li *loopInfo, st *State) *State {
 	} else {
 		vc.havocMods(fr, st, ms, what)
 	}
+	vc.flushTyping(st)
 	// values of phis at the head were already made fresh
 	for _, cl := range invs {
 		vc.assume(st, vc.evalClause(fr, st, cl, nil))
